@@ -181,6 +181,7 @@ class Slot:
         self.copied_from = None
         self.mutated_since_copy = False
         self.uncopyable = False
+        self.stale = {}     # handle -> node object that was removed from this graph (hand graphs)
 
 
 class GraphWorld(BaseWorld):
@@ -537,7 +538,7 @@ class GraphWorld(BaseWorld):
         nid = None
         r = rng.random()
         if r < 0.25:
-            nid = rng.choice([0, 5, 9, 17, 40, 100])
+            nid = rng.choice([0, 5, 9, 17, 40, 100, -1, -2])
         elif r < 0.35 and s.ref.removed_ids:
             nid = s.ref.removed_ids[-1]
         elif r < 0.45 and ids:
@@ -560,6 +561,8 @@ class GraphWorld(BaseWorld):
 
     def gen_remove_node(self, rng, gi):
         s = self.slots[gi]
+        if s.stale and rng.random() < 0.25:
+            return {'op': 'remove_node_again', 'g': gi, 'n': rng.choice(sorted(s.stale))}
         if not s.ref.order:
             return None
         r = rng.random()
@@ -604,7 +607,7 @@ class GraphWorld(BaseWorld):
         if r < 0.2:
             kid = 0
         elif r < 0.4:
-            kid = rng.choice([1, 2, 7, 30])
+            kid = rng.choice([1, 2, 7, 30, -3])
         elif r < 0.48 and used:
             kid = rng.choice(sorted(used))          # in use: must be refused
         if kid == 0 and self.guard('attacker_id0'):
@@ -774,6 +777,10 @@ class GraphWorld(BaseWorld):
             return None
         h = rng.choice(s.ref.order)
         what = rng.choice(['tags', 'extras', 'ttc', 'ttc'])
+        if rng.random() < 0.25:
+            # not an edit of the object in place: a new list / dict is assigned
+            return {'op': 'edit_inplace', 'g': gi, 'n': h, 'what': rng.choice(['new_tags', 'new_ttc']),
+                    'value': rng.choice(['zz', 'q1', 'edited'])}
         if what == 'ttc' and not s.ref.nodes[h].ttc:
             with_ttc = [x for x in s.ref.order if s.ref.nodes[x].ttc]
             if with_ttc:
@@ -948,12 +955,34 @@ class GraphWorld(BaseWorld):
         o = call(s.g.remove_node, node)
         if o.raised:
             self.fail('C09.must_not_raise', f'{where} raised {o.exc!r}')
+        if s.kind == 'hand' and ref.nodes[h].asset is None:
+            s.stale[h] = (node, ref.nodes[h].id, ref.nodes[h].full_name)
         ref.remove_node(h)
         del s.nmap[h]
         self._touch(s)
         self._invalidate_surfaces(s)
         self.check_all(where, only=op['g'])
         return 'ok'
+
+    def do_remove_node_again(self, op):
+        """remove_node with a node object that was removed from this graph before (a handle
+        somebody kept).  Refused or not: the graph stays what it is - in particular the
+        node that meanwhile took over the freed id keeps its lookup entries."""
+        s = self.slot(op['g'])
+        if op['n'] not in s.stale:
+            raise Unresolvable()
+        node, nid, full = s.stale[op['n']]
+        twin = [h for h in s.ref.order if s.ref.nodes[h].id == nid]
+        if twin and s.ref.nodes[twin[0]].full_name == full:
+            raise Unresolvable()        # value-equal to a live node: unspecified
+        o = call(s.g.remove_node, node)
+        self.count('fault:removed_node_removed_again')
+        if twin:
+            self.count('probe:stale_node_whose_id_was_taken_over')
+        self.check_all(f'remove_node(<node {nid} that was removed before>) '
+                       f'[{"refused: " + type(o.exc).__name__ if o.raised else "returned"}]',
+                       only=op['g'])
+        return 'refused' if o.raised else 'ok'
 
     # -- attackers
     def do_attach(self, op):
@@ -1366,7 +1395,7 @@ class GraphWorld(BaseWorld):
             return out
         for n in s.g.nodes:
             orig_objs[id(n)] = f'node {n.full_name}'
-            for attr in ('children', 'parents', 'compromised_by', 'tags', 'extras', 'ttc'):
+            for attr in ('children', 'parents', 'compromised_by', 'tags', 'extras', 'ttc', 'attributes'):
                 for v, label in containers(getattr(n, attr), attr, []):
                     orig_objs[id(v)] = f'{label} of {n.full_name}'
         for a_ in s.g.attackers:
@@ -1375,7 +1404,7 @@ class GraphWorld(BaseWorld):
             orig_objs[id(a_.reached_attack_steps)] = f'reached_attack_steps of {a_.name}'
         for n in g2.nodes:
             objs = [n]
-            for attr in ('children', 'parents', 'compromised_by', 'tags', 'extras', 'ttc'):
+            for attr in ('children', 'parents', 'compromised_by', 'tags', 'extras', 'ttc', 'attributes'):
                 objs += [v for v, _ in containers(getattr(n, attr), attr, [])]
             for x in objs:
                 if id(x) in orig_objs:
@@ -1583,7 +1612,18 @@ class GraphWorld(BaseWorld):
 
     # -- queries (C12)
     def _snapshot(self, slot):
-        return canon(observe_graph(slot.g))
+        """For the 'queries change nothing' clauses: the observation used everywhere else
+        (lists as multisets) plus an exact one - list orders included, since they show
+        in to_dict() and in saved files."""
+        g = slot.g
+        exact = ([(n.id, [c.id for c in n.children], [p_.id for p_ in n.parents],
+                   [a.id for a in n.compromised_by],
+                   list(n.tags) if isinstance(n.tags, list) else repr(n.tags))
+                  for n in g.nodes],
+                 [(a.id, [n.id for n in a.reached_attack_steps], [n.id for n in a.entry_points])
+                  for a in g.attackers],
+                 g.next_node_id, g.next_attacker_id)
+        return canon(observe_graph(g)) + repr(exact)
 
     def do_surface_query(self, op):
         s = self.slot(op['g'])
@@ -1713,6 +1753,14 @@ class GraphWorld(BaseWorld):
         elif what == 'extras':
             node.extras[val] = {'v': 1}
             rn.extras[val] = {'v': 1}
+        elif what == 'new_tags':
+            node.tags = list(node.tags or []) + [val]
+            rn.tags = list(rn.tags or []) + [val]
+            self.count('probe:tags_or_ttc_replaced_by_a_new_object')
+        elif what == 'new_ttc':
+            node.ttc = {'type': 'function', 'name': 'Exponential', 'arguments': [0.5], 'note': val}
+            rn.ttc = {'type': 'function', 'name': 'Exponential', 'arguments': [0.5], 'note': val}
+            self.count('probe:tags_or_ttc_replaced_by_a_new_object')
         elif what == 'defense':
             if rn.type != 'defense':
                 raise Unresolvable()
